@@ -462,8 +462,25 @@ func powOperands(r *rng.R, c dec.Ctx) (dec.D, dec.D) {
 		v := new(big.Int).Add(dec.Pow10(k), big.NewInt(r.Range(-9, 9)))
 		x := dec.D{Form: dec.Finite, C: v, E: -k}
 		y := dec.FromInt(r.Range(-100000, 100000), 0)
-		if r.Bool() {
+		switch r.Intn(3) {
+		case 0:
 			y = dec.FromInt(r.Range(-2000, 2000), 0)
+		case 1:
+			// |y| about 10^k so that the result stays moderate: a huge integer
+			// exponent, written with a short coefficient and a positive exponent
+			// or spelled out in full
+			m := r.Range(1, 99)
+			if r.Chance(1, 4) {
+				m = r.Range(100, 99999)
+			}
+			e := k - 2 + int64(r.Intn(4)) - (dec.NumDigits(big.NewInt(m)) - 1)
+			if e < 0 {
+				e = 0
+			}
+			y = dec.D{Form: dec.Finite, Neg: r.Bool(), C: big.NewInt(m), E: e}
+			if r.Bool() {
+				y = dec.D{Form: dec.Finite, Neg: y.Neg, C: new(big.Int).Mul(y.C, dec.Pow10(e)), E: 0}
+			}
 		}
 		return x, y
 	case 3: // integer exponents up to +/-1e5 on small bases (results may leave the range)
@@ -624,6 +641,12 @@ func runC12(r *mon.Run) {
 		transCase(t, "value", "ln", dec.Ctx{P: 4, Emin: 0, Emax: 50, Mode: "half_down"}, x2, dec.D{})
 		x3, _ := dec.Parse("58766946476195139152733326900E-28")
 		transCase(t, "value", "ln", dec.Ctx{P: 58, Emin: 0, Emax: 58, Mode: "half_even"}, x3, dec.D{})
+		// fixed: Pow lost accuracy with integer exponents beyond about 1e10
+		for _, xy := range [][2]string{{"10000000001E-10", "9E10"}, {"10000000000000001E-16", "7E16"}, {"10000000000000001E-16", "70000000000000000E0"}, {"99999999999999E-14", "-3E14"}} {
+			px, _ := dec.Parse(xy[0])
+			py, _ := dec.Parse(xy[1])
+			transCase(t, "value", "pow", dec.Ctx{P: 20, Emin: -6143, Emax: 6144, Mode: "half_even"}, px, py)
+		}
 		t.Count("pinned")
 	})
 	if !r.IsReplay() {
